@@ -57,6 +57,8 @@ def op_str(ev):
         return "Get(t%d,%s)%s" % (ev["t"], ".".join(ev["req"]) or '""', res)
     if e == "Other":
         return "OtherRegistry(%s)" % ev.get("what", "")
+    if e == "Hang":
+        return "Set(t%d,%s=%s)->NEVER RETURNS" % (ev["t"], ".".join(ev["req"]), _short_val(ev["val"]))
     return e
 
 
@@ -337,12 +339,39 @@ def run(ctx):
     ctx.log("I->T: %d cases, %d lines, %d accepted; T->I: %d behaviours, %d lines, %d accepted" % (
         len(cases_r), len(rows_r), acc_r, len(cases_s), len(rows_s), acc_s))
 
+    trace_violations = len(violations)     # rejections of real steps by the trace spec (none on a conforming tree)
+    # a View.Set that never returns (driver watchdog): confirm by re-running that case alone, then report
+    hang_key = ("registry View.Set never returns: checkForUnusedBranches loops forever when an unused branch of the "
+                "value holds an empty map")
+    nhangs = 0
+    for c in cases_r + cases_s:
+        if c[-1]["ev"] != "Hang":
+            continue
+        nhangs += 1
+        if nhangs > 1:
+            continue
+        hscript = [to_script_op(e) for e in c[:-1]] + [dict(to_script_op(c[-1]), ev="Set")]
+        hd = ctx.subdir("confirm_hang")
+        hsp = os.path.join(hd, "script.ndjson")
+        common.write_ndjson(hsp, hscript)
+        hout = os.path.join(hd, "replayed.ndjson")
+        run_driver(ctx, tb, hout, {"VERIF_SCRIPT": hsp})
+        again = common.read_ndjson(hout)
+        if again[-1]["ev"] != "Hang":
+            raise InfraError("watchdog expiry of %s did not reproduce" % op_str(c[-1]))
+        violations.append(Violation(
+            key=hang_key,
+            desc="%s. Exact input: %s ; %s (registry/registry.go:checkForUnusedBranches, the loop that builds the "
+                 "\"value contains unused data under\" message never advances on an empty map; the request "
+                 "should be rejected as a bad request). History: %s" % (
+                     hang_key, op_str(c[0]), op_str(c[-1]), " ; ".join(op_str(e) for e in c)),
+            replay={"script": hscript, "observed": again[-1]}))
+
     negctl = (negative_control(ctx, cases_r, "TraceRegistryView", "TraceRegistryView.cfg")
-              if not violations else "skipped")
+              if not trace_violations else "skipped")
     ctx.log("negative control: %s" % negctl)
 
     # ---- 3. state level --------------------------------------------------------------------
-    ext_violations = len(violations)
     rows_st, ncases_st = run_state_level(ctx, violations)
     ctx.log("state level: %d cases, %d lines" % (ncases_st, len(rows_st)))
 
@@ -356,7 +385,7 @@ def run(ctx):
         if e == "Reset":
             views.add(json.dumps(r["view"], sort_keys=True))
             continue
-        if e == "Panic":
+        if e in ("Panic", "Hang"):
             continue
         k = e.lower() + ("_" + r["res"]["k"] if "res" in r else "")
         if e == "Commit" and r["res"]["k"] == "ok":
@@ -366,7 +395,7 @@ def run(ctx):
     need = ["set_ok", "set_notfound", "set_badrequest", "unset_ok", "unset_notfound", "get_val", "get_notfound",
             "commit_ok_changing", "commit_invalid", "begin"]
     missing = [k for k in need if not cls.get(k)]
-    if missing and not ext_violations:     # a broken tree may make a class unreachable: report the violations
+    if missing and not trace_violations:     # a broken tree may make a class unreachable: report the violations
         raise InfraError("vacuity guard: real executions never produced: %s" % ", ".join(missing))
     cls_st = {}
     for r in rows_st:
@@ -386,6 +415,7 @@ def run(ctx):
         "distinct_abstract_states_reached_by_real_code": len(abstract),
         "real_event_classes": dict(sorted(cls.items())),
         "negative_control": negctl,
+        "view_set_hangs_observed": nhangs,
         "design_runs": design,
         "action_coverage": tlc.coverage_summary(mc),
         "tlc_constants": {
